@@ -1666,6 +1666,8 @@ class Engine:
             return ('range', v.fields.get('start'), v.fields.get('end'), 'Inclusive' in v.ty, ())
         if isinstance(v, IterV) and v.kind == 'range':
             return ('range', v.args[0], v.args[1], bool(v.args[2]), tuple(o[0] for o in v.ops))
+        if isinstance(v, IterV) and v.kind == 'coll':
+            return ('coll', v.args[0], v.args[2], v.iid, tuple(o[0] for o in v.ops))
         return None
 
     def loop_written(self, fr, head, blocks):
@@ -1716,6 +1718,9 @@ class Engine:
                 continue
             ty = body.locals[l]['ty']
             nv = self.mk_default(st, ty, name=body.local_name(l) + '@loop')
+            if isinstance(v, StrV) and isinstance(nv, StrV):
+                # a string accumulated by the loop: remember which loop and what it held on entry
+                nv = StrV(None, oid=nv.oid, prov=('loopvar', fr.func, head, l, v.known))
             if isinstance(v, CollV) and isinstance(nv, CollV):
                 nv = nv.evolve(prov=v.prov, elem=v.elem)
                 if ty == 'std::vec::Vec<u32>' and self._elems_in_domain(st, v):
